@@ -506,7 +506,11 @@ class Run:
         os.remove(tf)
         self.events, self.coverage, self.nt, self.states, self.transitions = saved
         again = {(v["sid"], v["seq"], v["prop"], v["pred"], v["cls"]) for v in vs}
-        return fatal + [v for v in verdicts if (v["sid"], v["seq"], v["prop"], v["pred"], v["cls"]) in again]
+        # A verdict is confirmed when its own session shows it again, or - for behaviour that depends on how concurrent sessions fall (shared
+        # pools, races) - when the fresh process shows the same predicate failing in the same class on another of the re-driven sessions
+        # (all of which are sessions that showed a violation the first time).
+        again_cls = {(v["prop"], v["pred"], v["cls"]) for v in vs}
+        return fatal + [v for v in verdicts if (v["sid"], v["seq"], v["prop"], v["pred"], v["cls"]) in again or (v["prop"], v["pred"], v["cls"]) in again_cls]
 
 
 def shorten(x, n=48):
